@@ -84,6 +84,13 @@ pub(super) fn generate_method_impl(
         };
     };
 
+    // A method without outputs ignores the reply's parameters, however the service spells their
+    // absence (member left out, `null` or an empty object).
+    let wire_reply_type: Type = match &reply_type {
+        Type::Tuple(tuple) if tuple.elems.is_empty() => syn::parse_quote!(::serde::de::IgnoredAny),
+        _ => reply_type.clone(),
+    };
+
     let out_params_extract = match &reply_type {
         Type::Tuple(tuple) if tuple.elems.is_empty() => {
             // Unit type ()
@@ -104,6 +111,7 @@ pub(super) fn generate_method_impl(
         generate_streaming_method(
             method_call_setup,
             &reply_type,
+            &wire_reply_type,
             &error_type,
             out_params_extract,
             crate_path,
@@ -112,6 +120,7 @@ pub(super) fn generate_method_impl(
         generate_regular_method(
             method_call_setup,
             &reply_type,
+            &wire_reply_type,
             &error_type,
             out_params_extract,
             crate_path,
@@ -351,6 +360,7 @@ fn generate_oneway_method(
 fn generate_streaming_method(
     method_call_setup: TokenStream,
     reply_type: &Type,
+    wire_reply_type: &Type,
     error_type: &Type,
     out_params_extract: TokenStream,
     crate_path: &TokenStream,
@@ -370,7 +380,7 @@ fn generate_streaming_method(
 
         let stream = #crate_path::connection::chain::ReplyStream::new(
             self.read_mut(),
-            |conn| conn.receive_reply::<#reply_type, #error_type>(),
+            |conn| conn.receive_reply::<#wire_reply_type, #error_type>(),
             1,
         );
 
@@ -389,6 +399,7 @@ fn generate_streaming_method(
 fn generate_regular_method(
     method_call_setup: TokenStream,
     reply_type: &Type,
+    wire_reply_type: &Type,
     error_type: &Type,
     out_params_extract: TokenStream,
     crate_path: &TokenStream,
@@ -400,7 +411,7 @@ fn generate_regular_method(
         #method_call_setup
 
         let call = #crate_path::Call::new(method_call);
-        match self.call_method::<_, #reply_type, #error_type>(&call).await? {
+        match self.call_method::<_, #wire_reply_type, #error_type>(&call).await? {
             Ok(reply) => #out_params_extract,
             Err(error) => Ok(Err(error)),
         }
